@@ -13,6 +13,11 @@ CLAIMED = {
    note="trusted: replaced global operator new/delete sees every owned array (malloc-level allocations of libc/Eigen are not filled); ASan/UBSan report classification by exit code 77; uninitialised reads that never reach an output are only caught by the sanitizer stage if they are out of bounds",
    technique="deterministic simulation: seeded heap-state fault injection (fill/recycle/address) with bitwise differential oracle + allocator ledger + sanitizers inside simulated runs",
    replay="./build/plain/c10 --replay {path}"),
+ "C19": dict(cat="fault_enumeration", ref="4 (C19), 2.7",
+   text="Fault enumeration on a simulated disk: images of MatrixMarket (sparse/dense, general/symmetric) and binary (CRS/dense) files for double/float/complex/integer data are damaged by explicit ops (truncation at EVERY byte offset of small images - exhaustive for the file at hand -, seeded bit flips, byte overwrites, lost tails, dropped/duplicated lines, corrupted banner keywords, inflated size fields, value/storage kind mismatch) and read back whole and by row range; oracle: fault-free images round-trip bitwise (incl. denormals, +-max, -0) and slices equal the full read; damaged images either throw std::exception or return a CRS structure valid for the sizes reported, and the four classes the statement names must throw; the same cases run under ASan+UBSan.",
+   note="trusted: memfd-backed /proc/self/fd paths behave like files for ifstream/ofstream (seek, short read, EOF); libstdc++ number parsing; corruption positions are sampled, only truncation is exhaustive per image; images whose size fields imply >16M-element allocations are skipped in the ASan stage (ASan aborts instead of throwing bad_alloc) and run in the plain stage under RLIMIT_AS",
+   technique="deterministic simulation: simulated file layer with exhaustive truncation and seeded corruption fault injection, round-trip reference model, sanitizers inside simulated runs",
+   replay="./build/plain/c19 --replay {path}"),
 }
 NA_PURE = {
  "C04": "pure function of (matrix, parameters): aggregation is a serial greedy loop, its parallel loops are statically partitioned without reductions; no schedule, fault or history can change the result (thread-count independence of the operators is exercised under C09)",
